@@ -11,7 +11,9 @@ from common import Ctx, dec, enc, enc_entries, same, shrink
 ID = "C15"
 RULE = ("nested dicts with mixed int/str keys (lists, dicts inside lists, empty containers); compared: model orderV / "
         "SD.order vs dictIO.order_keys / SDict.order_keys; oracle: same associations, sorted, lists untouched, "
-        "idempotent, ordered file reads like unordered file; non-trivial = at least one dict level with >=2 keys")
+        "idempotent, ordered file reads like unordered file; one SDict object through sequences of order_keys / ordered writes "
+        "interleaved with changes at any level (item assignment, update, setdefault, merge, |=), starting plain, ordered or read "
+        "with order=True; non-trivial = at least one dict level with >=2 keys")
 ASSUMPTIONS = ["Python str comparison is code-point lexicographic (modelled by strLe)",
                "file routes rely on the native writer/reader (C01) -- exercised by the oracle only"]
 
@@ -101,6 +103,102 @@ def oracle_files(ctx: Ctx, d: dict) -> None:
         ctx.violation("ordered append changed an association", case, enc(rt), enc(spec.norm(spec.merge_first_wins(half, rest))))
 
 
+def _dict_paths(d, prefix=()):
+    out = [prefix]
+    for k, v in d.items():
+        if isinstance(v, dict):
+            out.extend(_dict_paths(v, prefix + (k,)))
+    return out
+
+
+def _seq_case(rng):
+    """one SDict object through ordering steps interleaved with changes at any level (state carried between calls)"""
+    d = gen.tree_dict(rng, rng.randint(1, 3), 4, leaf=lambda r: gen.scalar(r, strings=False), p_dict=0.45)
+    shadow = copy.deepcopy(d)
+    ops = []
+    start = rng.choice(["plain", "read_ordered", "ordered"])
+    for _ in range(rng.randint(2, 7)):
+        r = rng.random()
+        if r < 0.35:
+            ops.append(["order"])
+        elif r < 0.45:
+            ops.append(["write"])
+        else:
+            paths = _dict_paths(shadow)
+            p = list(rng.choice(paths))
+            k = gen.key(rng, int_ratio=0.4)
+            v = rng.choice([rng.randint(0, 9), {gen.key(rng, 0.4): 1, gen.key(rng, 0.4): 2}, [3, 1, 2]])
+            how = rng.choice(["item", "item", "update", "setdefault"]) if p else rng.choice(["item", "update", "merge", "ior"])
+            t = shadow
+            for x in p:
+                t = t[x]
+            if k in t or (isinstance(k, int) and str(k) in t) or (isinstance(k, str) and k.lstrip("-").isdigit()):
+                continue
+            t[k] = copy.deepcopy(v)
+            ops.append(["set", [spec_key(x) for x in p], spec_key(k), enc(v), how])
+    ops.append(["order"])
+    return {"kind": "seq", "d": enc(d), "start": start, "ops": ops}
+
+
+def spec_key(k):
+    return {"i": k} if isinstance(k, int) else {"s": k}
+
+
+def unspec_key(k):
+    return k["i"] if "i" in k else k["s"]
+
+
+def oracle_seq(ctx: Ctx, c: dict) -> None:
+    from dictIO import DictReader, DictWriter, SDict
+    d = dec(c["d"])
+    shadow = copy.deepcopy(d)
+    try:
+        with impl.scratch() as td:
+            if c["start"] == "read_ordered":
+                DictWriter.write(copy.deepcopy(d), td / "src", mode="w")
+                s = DictReader.read(td / "src", order=True, comments=False)
+            else:
+                s = SDict(copy.deepcopy(d))
+                if c["start"] == "ordered":
+                    s.order_keys()
+            for step, op in enumerate(c["ops"]):
+                if op[0] == "set":
+                    p = [unspec_key(x) for x in op[1]]; k = unspec_key(op[2]); v = dec(op[3])
+                    t, ts = shadow, s
+                    for x in p:
+                        t, ts = t[x], ts[x]
+                    t[k] = copy.deepcopy(v)
+                    how = op[4]
+                    if how == "item":
+                        ts[k] = copy.deepcopy(v)
+                    elif how == "update":
+                        ts.update({k: copy.deepcopy(v)})
+                    elif how == "setdefault":
+                        ts.setdefault(k, copy.deepcopy(v))
+                    elif how == "merge":
+                        ts.merge({k: copy.deepcopy(v)})
+                    elif how == "ior":
+                        ts |= {k: copy.deepcopy(v)}
+                elif op[0] == "order":
+                    s.order_keys()
+                    got = impl.plain(s)
+                    if spec.unordered(spec.strip_placeholders(got)) != spec.unordered(shadow):
+                        ctx.violation("order_keys on a changed SDict changed an association", c, {"step": step, "got": enc(got)}, enc(shadow)); return
+                    if not _sorted_everywhere(got):
+                        ctx.violation("order_keys on an SDict that was ordered before and changed since leaves keys unsorted", c,
+                                      {"step": step, "got": enc(got)}, "sorted at every level"); return
+                elif op[0] == "write":
+                    DictWriter.write(s, td / "out", mode="w", order=True)
+                    back = spec.strip_placeholders(impl.plain(DictReader.read(td / "out", comments=False)))
+                    if not _sorted_everywhere(back):
+                        ctx.violation("file written with order=True from an SDict that was ordered before and changed since is not sorted", c,
+                                      {"step": step, "got": enc(back)}, "sorted at every level"); return
+                    if spec.unordered(back) != spec.unordered(spec.norm(shadow)):
+                        ctx.violation("ordered write of a changed SDict changed an association", c, {"step": step, "got": enc(back)}, enc(shadow)); return
+    except Exception as e:  # noqa: BLE001
+        ctx.violation("ordering sequence raises", c, repr(e), "no exception")
+
+
 def _sd_case(rng):
     d = gen.tree_dict(rng, 3, 4, leaf=lambda r: gen.scalar(r, strings=False))
     tbl = lambda: sorted(rng.sample(range(0, 40), rng.randint(0, 5)), key=lambda _: rng.random())
@@ -151,6 +249,8 @@ def process(ctx: Ctx, cases: list[dict]) -> None:
                     ctx.disagree("SDict.order_keys", c, m, r)
         elif c["kind"] == "files":
             oracle_files(ctx, d)
+        elif c["kind"] == "seq":
+            oracle_seq(ctx, c)
 
 
 def run(ctx: Ctx) -> None:
@@ -165,6 +265,8 @@ def run(ctx: Ctx) -> None:
     for _ in range(ctx.n(150, 2500)):
         d = gen.tree_dict(rng, rng.randint(1, 3), 4, leaf=lambda r: gen.scalar(r, strings=False))
         cases.append({"kind": "files", "d": enc(d)})
+    for _ in range(ctx.n(250, 4000)):
+        cases.append(_seq_case(rng))
     process(ctx, cases)
 
 
